@@ -199,6 +199,10 @@ pub fn decode_c17(data: &[u8]) -> crate::props::c17::Case {
             let k = r.u8() % 3;
             (0..k).map(|_| if r.u8() % 4 == 0 { Dec::new(ONE + 1 + r.u32() as u128) } else { r.dec_unit() }).collect()
         },
+        denom_updates: {
+            let k = r.u8() % 4;
+            (0..k).map(|_| (r.u8() % 4, r.u8() % 4 != 0)).collect()
+        },
     }
 }
 
